@@ -5,6 +5,7 @@ import z3
 
 from pyvc.values import *   # noqa
 from pyvc.engine import LoopSpec, EXC
+from pyvc.engine import BoundMethod
 from pyvc.harness import harness, new_obj, OpaqueLog
 from pyvc import models as M
 from pyvc import aio
@@ -394,7 +395,7 @@ def stop_all_streams(E):
 RL = BASE + '._receiver_listen'
 
 
-@harness('e.receiver_listen.body', ['C12', 'C11'], functions=[RL],
+@harness('e.receiver_listen.body', ['C12', 'C11', 'C01', 'C14', 'C15', 'C16'], functions=[RL],
          assumptions=['Transport.next_frame_generator is abstract: returns None (EOF), raises RSocketTransportError, or an async iterable of frames',
                       '_handle_next_frame is used through its weakest contract here: returns, or raises any exception'])
 def receiver_body(E):
@@ -421,8 +422,11 @@ def receiver_body(E):
     gerr = E.make_exc('ValueError', 'application bug')
     cerr = E.make_exc('CancelledError')
 
+    tables = []
+
     def hnf(E_, fn, a, k):
         handled.append(a[1])
+        tables.append(a[2] if len(a) > 2 else k.get('async_frame_handler_by_type'))
         if a[1] is f1 and outcome:
             raise PyExc([None, perr, terr, gerr, cerr][outcome])
         return aio.Awaitable('ready')
@@ -439,6 +443,19 @@ def receiver_body(E):
         return
     E.cover('loop-continued-until-eof')
     P('receiver:other_failures_do_not_leave_the_loop', outcome in (0, 1, 3))
+    # the by-type dispatch table handed to _handle_next_frame: every connection-level / request frame type goes to this
+    # endpoint's own handler of that type (the protocol's mapping, written out here - not read from the code)
+    want = {'RequestResponseFrame': 'handle_request_response', 'RequestStreamFrame': 'handle_request_stream',
+            'RequestChannelFrame': 'handle_request_channel', 'SetupFrame': 'handle_setup',
+            'RequestFireAndForgetFrame': 'handle_fire_and_forget', 'MetadataPushFrame': 'handle_metadata_push',
+            'ResumeFrame': 'handle_resume', 'LeaseFrame': 'handle_lease', 'KeepAliveFrame': 'handle_keep_alive',
+            'ErrorFrame': 'handle_error'}
+    t0 = tables[0] if tables else None
+    ok = isinstance(t0, dict) and {getattr(c, 'name', None) for c in t0} == set(want)
+    if ok:
+        for c, m in t0.items():
+            ok = ok and isinstance(m, BoundMethod) and m.self_obj is sock and m.func.name == want[c.name]
+    P('receiver:by_type_table_maps_each_frame_type_to_this_endpoints_handler_of_that_type', ok and all(t is t0 or t == t0 for t in tables))
     P('receiver:next_frame_still_processed', handled == [f1, f2])
     if outcome == 0:
         P('receiver:no_error_frame_without_failure', not errors)
@@ -446,6 +463,50 @@ def receiver_body(E):
         P('receiver:protocol_error_answered_once_on_the_offending_stream', errors == [(sid, perr)])
     else:
         P('receiver:application_failure_answered_once_on_the_offending_stream', errors == [(sid, gerr)])
+
+
+@harness('e.connection_level_handlers', ['C01', 'C12', 'C20'], functions=[BASE + '.handle_metadata_push', BASE + '.handle_error',
+                                                                      BASE + '._on_connection_error', 'rsocket/helpers.py::payload_from_frame'],
+         assumptions=['the application handler is abstract (K-HANDLER): its methods are called and may raise'])
+def connection_level_handlers(E):
+    sock, table, ctable = mk_endpoint(E)
+    app = sock.attrs['_handler']
+    log = OpaqueLog(E, returns={'on_metadata_push': lambda *a: aio.Awaitable('ready'), 'on_error': lambda *a: aio.Awaitable('ready'),
+                                'on_connection_error': lambda *a: aio.Awaitable('ready')})
+    h0, c0 = table.has, ctable.has
+    sent = []
+    E.stubs[BASE + '.send_frame'] = lambda E_, f_, a, k: sent.append(a[1])
+    which = E.path.choice(3, 'which')
+    P = E.prove
+    if which == 0:
+        md = E.fresh_bytes('metadata')
+        f = frame(E, 'MetadataPushFrame', 0, metadata=md)
+        E.await_value(E.call(E.getattr(sock, 'handle_metadata_push'), [f]))
+        E.cover('metadata-push')
+        calls = log.of(app)
+        P('metadata_push:delivered_exactly_once_to_the_application_handler', len(calls) == 1 and calls[0][1] == 'on_metadata_push' and len(calls[0][2]) == 1)
+        if len(calls) == 1 and len(calls[0][2]) == 1:
+            p = calls[0][2][0]
+            P('metadata_push:payload_carries_exactly_the_pushed_metadata_and_no_data', payload_is(E, p, None, md))
+    elif which == 1:
+        codes = E.lookup('rsocket/error_codes.py::ErrorCode').members
+        code = [codes['CONNECTION_ERROR'], codes['REJECTED_SETUP'], codes['INVALID_SETUP'], codes['UNSUPPORTED_SETUP']][E.path.choice(4, 'code')]
+        data = E.fresh_bytes('edata')
+        f = frame(E, 'ErrorFrame', 0, error_code=code, data=data, metadata=None)
+        E.await_value(E.call(E.getattr(sock, 'handle_error'), [f]))
+        E.cover('connection-error-frame')
+        calls = log.of(app)
+        P('error:stream_0_error_reported_exactly_once_to_the_application_handler', len(calls) == 1 and calls[0][1] == 'on_error' and len(calls[0][2]) == 2)
+        if len(calls) == 1 and len(calls[0][2]) == 2:
+            P('error:with_the_frames_code_and_data', calls[0][2][0] is code and payload_is(E, calls[0][2][1], data, None))
+    else:
+        ex = E.make_exc('OSError', 'connect failed')
+        E.await_value(E.call(E.getattr(sock, '_on_connection_error'), [ex]))
+        E.cover('connection-error')
+        calls = log.of(app)
+        P('connection_error:reported_exactly_once_with_this_endpoint_and_the_exception',
+          len(calls) == 1 and calls[0][1] == 'on_connection_error' and len(calls[0][2]) == 2 and calls[0][2][0] is sock and calls[0][2][1] is ex)
+    P('connection_level:no_stream_state_touched_and_nothing_sent', z3.And(table.has.eq(h0), ctable.has.eq(c0)) if not sent else False)
 
 
 @harness('e.exception_to_error_frame', ['C12', 'C16', 'C08'], functions=['rsocket/frame.py::exception_to_error_frame', BASE + '.send_error'],
